@@ -66,6 +66,10 @@ def run_property(pid, tier="quick", seed=0):
     known = [k for k in load_known() if k["property"] == pid]
     vx_units = sorted({o["unit"] for o in spec["obligations"] if o["engine"] == "vx"})
     kx_obl = [o for o in spec["obligations"] if o["engine"] == "kx" and (tier == "thorough" or not o.get("thorough_only"))]
+    if os.environ.get("VERIF_ENGINES") == "vx":
+        # development aid (tools/dev/run_seeds.py): Verus obligations only; never used by the registered commands, and the
+        # evidence of such a run says so
+        kx_obl = []
     undecided, violations, discharged, bounded_ok, samples = [], [], [], [], []
     functions_under_contract, assumptions, rules_fired = [], set(), []
     solver_ms = 0.0
@@ -112,7 +116,23 @@ def run_property(pid, tier="quick", seed=0):
                 fails = [f for f in fails if not is_safety(f["msg"])]
             # a failure inside this fn attributed by tag to *other* properties only is not ours
             info = r["per_fn"].get(full)
-            if fails:
+            # an UNTAGGED plain `assert` in spliced proof text is a proof hint, not a contract clause: when only hints fail, the
+            # proof no longer goes through (a harmless reordering can do that) but no clause taken from a property is refuted --
+            # undecided, not a violation.  Postconditions, invariants, preconditions of callees, overflow/termination checks
+            # and every assert tagged [Cxx] are contract clauses.
+            hint_fails = [f for f in fails if f["msg"].startswith("assertion failed") and not f["tags"]]
+            clause_fails = [f for f in fails if f not in hint_fails]
+            if hint_fails and not clause_fails:
+                undecided.append({"obligation": full, "reason": "only untagged proof hints fail (the proof no longer goes through; no contract clause is refuted)",
+                                  "detail": "\n".join(f["text"] for f in hint_fails)[:1500]})
+                fails = []
+                hint_only = True
+            else:
+                fails = clause_fails
+                hint_only = False
+            if hint_only:
+                pass
+            elif fails:
                 violations.append({"obligation": full, "engine": "verus", "failures": fails, "unit": o["unit"]})
             elif r["status"] == "undecided" and (info is None or info["success"] is not True):
                 pass  # already in undecided
@@ -160,18 +180,18 @@ def run_property(pid, tier="quick", seed=0):
     # real crate.  A failing twin is a violation (with Kani's concrete values); a passing twin does NOT discharge the
     # obligation (it stays undecided: the twin is bounded).
     twin_ran = {}
-    if undecided:
+    if undecided and os.environ.get("VERIF_ENGINES") != "vx":
         wanted = []
         for o in spec["obligations"]:
             if o["engine"] != "vx":
                 continue
             r, err = unit_results[o["unit"]]
-            if err is None and (r is None or r["status"] != "undecided"):
-                continue
+            und_names = {u["obligation"] for u in undecided}
+            unit_level = err is not None or (r is not None and r["status"] == "undecided")
             for fn in o["fns"]:
                 full = f"{o['unit']}::{fn}"
                 info = (r or {}).get("per_fn", {}).get(full) if r else None
-                if info is not None and info.get("success") is True:
+                if full not in und_names and not (unit_level and not (info is not None and info.get("success") is True)):
                     continue
                 tw = SPEC.get("twins", {}).get(full)
                 if tw and full not in twin_ran:
@@ -293,6 +313,7 @@ def run_property(pid, tier="quick", seed=0):
         "violations": len(real_violations),
         "known_findings_reproduced": [v["obligation"] for (v, _) in known_hits],
         "twin_fallback": twin_ran,
+        "engines_restricted_to": os.environ.get("VERIF_ENGINES"),
         "replays": replay_paths,
         "exit_code": rc,
     }
